@@ -363,7 +363,7 @@ def c03(pid, tier, seed, selftest=False):
                 st.dec_constants(cs=2, src="Src21", hdr="HdrSmall", edits=edits, shorts=0, splits=0),
                 st.DEC_INVARIANTS + ["WrongKeyReleasesNothing"],
                 DEC_ACTIONS + ["AdvHdr", "AdvSwapHdr", "AdvTamper", "AdvFlag", "AdvLen", "AdvCtr", "AdvDelete", "AdvDup",
-                               "AdvSwap", "AdvSplice", "AdvReplace", "AdvTruncate", "AdvAppend"], workers=8)
+                               "AdvSwap", "AdvSplice", "AdvReplace", "AdvForge", "AdvTruncate", "AdvAppend"], workers=8)
     if thorough:
         check_model(rep, pid, "dec-mc-322", "MC_DecLoop",
                     st.dec_constants(cs=2, src="Src322", hdr="HdrSmall", edits=2, shorts=0, splits=0),
@@ -446,6 +446,9 @@ def c04(pid, tier, seed, selftest=False):
                                                                         shorts=1 if thorough else 0),
                                 "Src21", [("key", "key", 2 if thorough else 3), ("pass", "pass", 5 if thorough else 9)],
                                 variants=1)
+    # every adversarial file of C03's exploration (two edits, incl. forged records), default schedule: D1 / D2 at every write
+    scenarios += dec_from_model(rep, pid, "adv-21", st.dec_constants(cs=2, src="Src21", hdr="HdrNone", edits=2, shorts=0, splits=0),
+                                "Src21", [("chunks", "key", 1), ("chunks", "pass", 3)], variants=1)
     if thorough:
         scenarios += dec_from_model(rep, pid, "sched-322", st.dec_constants(cs=2, src="Src322", hdr="HdrNone", edits=1,
                                                                             faults=1, splits=1, shorts=1),
